@@ -10,6 +10,7 @@ mod observe;
 mod hist;
 mod c01;
 mod c03;
+mod c14;
 
 use report::{Coverage, Reporter, Tier};
 
@@ -54,6 +55,7 @@ fn main() {
             "C01" => c01::replay(&rep, case, "C01"),
             "C02" => c01::replay(&rep, case, "C02"),
             "C03" => c03::replay(&rep, case),
+            "C14" => c14::replay(&rep, case),
             _ => usage(),
         }
         let code = rep.finish(Coverage::default());
@@ -64,6 +66,7 @@ fn main() {
         "C01" => c01::run_c01(&rep),
         "C02" => c01::run_c02(&rep),
         "C03" => c03::run(&rep),
+        "C14" => c14::run(&rep),
         _ => usage(),
     };
     let code = rep.finish(cov);
